@@ -992,13 +992,14 @@ Definition scbk_small_ok (n : nat) : bool :=
           | RErr _ => false
           end
         else true) vs) secs) [false; true].
-Lemma scbk_small_ok_10 : forallb scbk_small_ok [2; 4; 6; 8; 10]%nat = true.
+Lemma scbk_small_ok_8 : forallb scbk_small_ok [2; 4; 6; 8]%nat = true.
 Proof. vm_compute. reflexivity. Qed.
 
 (* the whole path for scBK (vector: re-ordering, BK-tree product, X/Y support, deletion of two qubits;
    operator: re-ordering, bravyi_kitaev_tree, compress, two Z-substitutions with the parities of the
-   vector's own sector, pruning) on EVERY occupation vector of even length 2..10, both orderings, exact *)
-Theorem scbk_reference_occupations_small : forall n, In n [2; 4; 6; 8; 10]%nat ->
+   vector's own sector, pruning) on EVERY occupation vector of even length 2..8, both orderings, exact
+   (the bound is kept at 8 so that the independent re-check by coqchk, which has no vm, stays within minutes) *)
+Theorem scbk_reference_occupations_small : forall n, In n [2; 4; 6; 8]%nat ->
     forall (v : vec), length v = n -> forall (utd : bool) (p : nat), (p < n)%nat ->
     exists y q,
       get_mapped_vector jkmn_std MSCBK utd v = ROk y /\
@@ -1007,7 +1008,7 @@ Theorem scbk_reference_occupations_small : forall n, In n [2; 4; 6; 8; 10]%nat -
       op_elem CycS q (bits_to_N y) (bits_to_N y) = b2cy (nth p v false).
 Proof.
   intros n Hn v Lv utd p Hp.
-  pose proof scbk_small_ok_10 as Hall. rewrite forallb_forall in Hall. specialize (Hall n Hn).
+  pose proof scbk_small_ok_8 as Hall. rewrite forallb_forall in Hall. specialize (Hall n Hn).
   unfold scbk_small_ok in Hall. cbv zeta in Hall. rewrite forallb_forall in Hall.
   specialize (Hall utd ltac:(destruct utd; [right; left | left]; reflexivity)).
   rewrite forallb_forall in Hall.
